@@ -41,6 +41,7 @@ func C11(ctx *core.Ctx, r *core.Report) {
 	c11DeviateKindsIndependent(ctx, r)
 	c11InitializeMerges(ctx, r)
 	c11DeleteEachTakesEffect(ctx, r)
+	c11IfFeatureOperators(ctx, r)
 	r.Count("instances:memo-key-complete(tables found)", memoKeyComplete(ctx, r, scopeFuncs(ctx, "meta", "feature_set.go", "core.go", "resolver.go")))
 }
 
@@ -653,4 +654,92 @@ func c11DeleteEachTakesEffect(ctx *core.Ctx, r *core.Report) {
 			"the list without the deleted "+fld+" entry is not written back to the target inside the loop over the entries named by the deviate: each iteration filters the target's original list again, so of several named entries only the last one is removed (and no error is raised)")
 	}
 	r.Floor("delete-each-takes-effect", n, 2)
+}
+
+// c11IfFeatureOperators: the if-feature evaluator (ifFeatureEval.eval) is a
+// one-pass precedence parser: `and` and `not` ask the recursive call for ONE
+// operand (greedy=true), `or` and `(` for everything up to the closing bracket
+// (greedy=false), and a call that was asked for one operand returns as soon as
+// any token has completed one — which is what makes `not` bind tighter than
+// `and`, and `and` tighter than `or` (RFC 7950 7.20.2). Decided: the constant
+// handed to each recursive call, per operator, and that every way back to the
+// top of the token loop passes the test of `greedy`. The truth tables of the
+// combinations (&&, ||, !) and the tokeniser are not decided.
+func c11IfFeatureOperators(ctx *core.Ctx, r *core.Report) {
+	f := ctx.Method("meta", "ifFeatureEval", "eval")
+	if f == nil || len(f.Params) < 2 {
+		r.Fatalf("anchor meta.ifFeatureEval.eval not found")
+		return
+	}
+	greedy := f.Params[1]
+	// operator → block where its case starts
+	caseOf := map[string]*ssa.BasicBlock{}
+	core.Instrs(f, func(b *ssa.BasicBlock, in ssa.Instruction) {
+		ifi, ok := in.(*ssa.If)
+		if !ok {
+			return
+		}
+		bo, ok := ifi.Cond.(*ssa.BinOp)
+		if !ok || bo.Op != token.EQL {
+			return
+		}
+		if s, isC := core.ConstString(bo.Y); isC {
+			caseOf[s] = b.Succs[0]
+		}
+	})
+	want := map[string]string{"and": "true", "not": "true", "or": "false", "(": "false"}
+	ops := []string{"(", "and", "not", "or"}
+	for _, op := range ops {
+		cb, has := caseOf[op]
+		if !has {
+			r.Ob("if-feature-operators", "meta.ifFeatureEval.eval/case:"+op, ctx.Pos(f.Pos()), false, "the evaluator has no case for the operator `"+op+"` (the dispatch on the token is no longer a comparison with that literal)")
+			continue
+		}
+		got := ""
+		pos := ctx.Pos(f.Pos())
+		for _, c := range callsStatic(f, f, false) {
+			if c.Block() == cb || cb.Dominates(c.Block()) {
+				if k, isC := c.Common().Args[1].(*ssa.Const); isC && k.Value != nil {
+					got = k.Value.String()
+					pos = ctx.Pos(c.Pos())
+				}
+				break
+			}
+		}
+		r.Ob("if-feature-operators", "meta.ifFeatureEval.eval/case:"+op, pos, got == want[op],
+			fmt.Sprintf("operator `%s` must evaluate its right-hand side with greedy=%s (got %q): with the other value it takes one operand too few or too many and the precedence not > and > or is lost", op, want[op], got))
+	}
+	// every back edge of the token loop is dominated by a test of greedy inside the loop
+	var tests []*ssa.BasicBlock
+	core.Instrs(f, func(b *ssa.BasicBlock, in ssa.Instruction) {
+		if ifi, ok := in.(*ssa.If); ok && (ifi.Cond == ssa.Value(greedy) || dependsOn(ifi.Cond, greedy, 0)) {
+			tests = append(tests, b)
+		}
+	})
+	n := 0
+	for _, h := range f.Blocks {
+		body, hdr := innerLoopOf(h)
+		if hdr != h || body == nil {
+			continue
+		}
+		for _, p := range h.Preds {
+			if !body[p] {
+				continue
+			}
+			n++
+			ok := false
+			for _, tb := range tests {
+				if body[tb] && tb.Dominates(p) {
+					ok = true
+				}
+			}
+			pos := ctx.Pos(f.Pos())
+			if len(p.Instrs) > 0 {
+				pos = ctx.Pos(p.Instrs[len(p.Instrs)-1].Pos())
+			}
+			r.Ob("if-feature-operators", fmt.Sprintf("meta.ifFeatureEval.eval/one-operand-then-return#%d", n), pos, ok,
+				"the token loop can go round again without testing `greedy`: a call asked for ONE operand (the right-hand side of `and` or `not`) then keeps consuming the operators that follow, so `a and not b or c` is read as `a and (not b or c)`")
+		}
+	}
+	r.Floor("if-feature-operators(loop back edges)", n, 1)
 }
